@@ -69,6 +69,18 @@ SEEDS = {
     'C18f': ('C18', ['C18'], 'ln --symbolic creates relative links computed from the path text', 'destination reached through a symlinked directory with a different depth'),
     'C04f': ('C04', ['C04', 'C03'], 'gmtime replaced by a hand-written calendar conversion whose leap-day compensation is off by one (Feb 29 comes out as Mar 1)', 'a subdirectory start on Feb 29 of a leap year'),
     'C09f': ('C09', ['C09', 'C02', 'C10'], 'writer close no longer closes the index dataset and dataspaces before H5Fclose: the real flush happens after the rename', 'a reader touching the last file between the rename and the release of the handles during close()'),
+    'C01g': ('C01', ['C01', 'C19', 'C05'], 'continuous un-chunked mode: cursor not advanced over a gap inside the open file (global_index = next_global_index removed)', 'continuous, no compression; a write after a gap inside the open file that ends inside the same file, then a write relying on the cursor'),
+    'C02g': ('C02', ['C02', 'C09'], 'roll-over no longer closes the rf_data dataset and dataspace of the previous file before H5Fclose: the rename precedes the real flush', 'process killed between the roll-over rename and the deferred close of the previous file'),
+    'C05g': ('C05', ['C05', 'C19'], 'rf_write_blocks: offsets-past-the-end pre-check became `any(b > len)`: a last offset equal to len(arr) is accepted', 'is_continuous writer, >= 2 blocks, last block offset == len(arr)'),
+    'C06g': ('C06', ['C06'], 'session UUID copied with a bound of 36 characters', 'uuid_str longer than 36 characters'),
+    'C07g': ('C07', ['C07'], 'H5Pset_fill_time(NEVER) when the first write covers max_chunk_size samples (not the capacity of this file)', 'non-integer samples per file; an (n+1)-slot file created by a write of exactly n samples'),
+    'C10g': ('C10', ['C10'], 'un-chunked writers close the index dataset right after creating it, result unchecked', 'transient I/O fault on exactly the write that carries the index chunk'),
+    'C11g': ('C11', ['C11', 'C02'], '"is this the open file" test compares only the basename: a second write into a refused period skips creation and the finished-name guard', 'restart into a finalized period, two refused writes, then a write into a free period'),
+    'C12g': ('C12', ['C12'], '_recursive_items drops the enclosing names on every descent (k + "/" instead of prefix + k + "/")', 'metadata value with a sub-sub-dictionary (>= 3 levels)'),
+    'C14g': ('C14', ['C14'], 'files of a subdirectory sorted by name instead of by time', 'one subdirectory holding names that do not sort lexicographically by time (digit count of the seconds field changes, mixed prefixes)'),
+    'C16g': ('C16', ['C16'], '_remove_from_queue pops the front entry when its time key matches (paths not compared)', 'two tracked files of one group with the same time key; the first inserted one is removed, the other reported again'),
+    'C17g': ('C17', ['C17'], 'mirror handler passes include_drf_properties as include_dmd_properties to the event handler', 'exactly one of include_drf / include_dmd is False'),
+    'C20g': ('C20', ['C20', 'C13', 'C12'], 'metadata reader _get_file_list stops enumerating at the first subdirectory that does not exist (break instead of continue)', 'two metadata writes in non-adjacent subdirectories and a read across the gap'),
     'C02': ('C02', ['C02', 'C09'], 'existence check of the finished name skipped when the subdirectory was "just created" (in effect always)',
             'a second session writing into a period whose finalized file exists'),
     'C02b': ('C02', ['C02'], 'a failed exclusive create on an existing tmp name no longer marks the writer failed: close publishes the stale tmp file',
